@@ -9,6 +9,7 @@ import Driver.Select
 import Driver.Fold
 import Driver.Project
 import Driver.PlanCheck
+import Driver.Run
 namespace Driver
-def handlers : List (List String → Option String) := [handleScan, handlePlans, handleOrder, handleAggr, handleEval, handleParse, handleSelect, handleFold, handleProject, handlePlanCheck]
+def handlers : List (List String → Option String) := [handleScan, handlePlans, handleOrder, handleAggr, handleEval, handleParse, handleSelect, handleFold, handleProject, handlePlanCheck, handleRun]
 end Driver
